@@ -406,6 +406,21 @@ def gen_c16(tier, seed):
             if r.random() < 0.4:
                 ops += ['wb:%x:%x' % (a, r.randrange(256)), 'ng']
         g.add(ops, 'constant-images')
+    # a reset of a machine that is in the middle of anything: processor registers (control-block pointer, stack pointers,
+    # PSW with any flags) pointing anywhere in RAM, RAM and NVRAM filled with markers; reset must not write a byte of either
+    for i in range(24 if tier == 'quick' else 600):
+        ver = r.choice([1, 2])
+        ops = ['rs:%x' % ver, 'ld:700000:%s' % ''.join('%02x' % r.randrange(1, 256) for _ in range(0x100)),
+               'ld:7ff000:%s' % ''.join('%02x' % r.randrange(1, 256) for _ in range(0x100))]
+        pcbp = r.choice([0x700000, 0x700040, 0x7ff000, 0x7fffc0, 0x7ffffc, 0x700000 + 4 * r.randrange(0x40)])
+        ops += ['r:d:%x' % pcbp, 'r:e:%x' % r.choice([0x700080, 0x7ff080]), 'r:c:%x' % r.choice([0x7000c0, 0x7ff0c0]),
+                'r:9:%x' % r.choice([0x7000a0, 0x7ff0a0]), 'r:a:%x' % r.choice([0x7000b0, 0x7ff0b0]),
+                'r:b:%x' % r.choice([0, 0x100, 0x180, 0x1e100, 0x281e180, r.randrange(1 << 26)]),
+                'r:f:%x' % r.choice([0x700010, 0x1274])]
+        for k in range(9):
+            ops.append('r:%x:%x' % (k, r.randrange(1 << 32)))
+        ops += ['rs:%x' % r.choice([ver, 3 - ver]), 'gr', 'rw:%x' % (pcbp & ~3), 'rw:700000', 'rw:700040', 'rw:7ff000', 'ng']
+        g.add(ops, 'reset-mid-flight')
     return g.result('Histories of reset(version) for versions 1, 2 and other numbers in any order, interleaved with guest '
                     'execution of the firmware (1 to 1500 steps), guest ROM-write attempts, guest NVRAM/RAM writes and host '
                     'NVRAM restore/snapshot calls; registers, ROM digest, NVRAM digest compared after every prefix.')
